@@ -59,6 +59,7 @@ var c18Templates = []c18Tpl{
 	{src: "{% case n %}{% when 1 %}one{% when 3 %}three{% else %}other{% endcase %}{% case w %}{% when 2 %}two{% endcase %}"},
 	{src: "{% if n %}T{% endif %}{% unless g %}U{% endunless %}{% if n and f %}V{% endif %}"},
 	{src: "{{ l | sort | join: ',' }}|{{ l2 | sort | join: ',' }}|{{ lf | sort | join: ',' }}|{{ l2 | uniq | join: ',' }}|{{ l | reverse | join: ',' }}"},
+	{src: "{% if l contains f %}A{% else %}B{% endif %}{% if l contains k %}C{% else %}D{% endif %}{% if l contains g %}E{% else %}F{% endif %}{% if lf contains n %}G{% else %}H{% endif %}{% if lf contains 2.5 %}I{% endif %}{% if l contains 2.0 %}J{% endif %}{% if l contains '2' %}K{% else %}L{% endif %}{% if ls contains n %}M{% else %}N{% endif %}"},
 	{src: "{{ ld | uniq | join: ',' }}|{{ ld | uniq | size }}|{{ ld | sort | uniq | join }}|{{ ld | reverse | uniq | join }}|{% if ld contains 'c' %}C{% endif %}"},
 	{src: "{% if l contains 2 %}A{% endif %}{% if l contains n %}B{% endif %}{% if l2 contains 2 %}C{% else %}D{% endif %}{% if l == l %}E{% endif %}{% if l == l2 %}F{% else %}G{% endif %}"},
 	// strings
